@@ -207,8 +207,12 @@ package net
 //@ func (e *endPoint) dispatch(msg *Message) (err error)
 //@   tags C17 C10 C12 C04 C11 C13
 //@   requires !e.handlersMutex.lockw && msg != nil && e.stream != nil
-//@   modifies everything, e.dvisited, allof(hkeep)
+//@   modifies everything, e.dvisited, allof(hkeep), e.ndisp
 //@   ensures !e.handlersMutex.lockw
+// every dispatch counts (ndisp): the receive loop must dispatch each message read exactly once,
+// whatever the number of call sites (C10: each message arrives once)
+//@   call Lock#1: ghost e.ndisp := e.ndisp + 1
+//@   ensures[C10] e.ndisp == old(e.ndisp) + 1
 //@   call dyn#1: ghost_after h.hkeep := result1
 //@   ensures[C17] forall k int {at_lock(e.handlers[k])} :: 0 <= k && k < at_lock(len(e.handlers)) && at_lock(e.handlers[k]) != nil ==> (at_lock(e.handlers[k]).hkeep ==> at_unlock(e.handlers[k]) == at_lock(e.handlers[k])) && (!at_lock(e.handlers[k]).hkeep ==> at_unlock(e.handlers[k]) == nil)
 //@   ensures[C10,C04,C11,C13] forall k int {at_lock(e.handlers[k])} :: e.dvisited < k && k < at_lock(len(e.handlers)) ==> at_lock(e.handlers[k]) == nil
@@ -225,7 +229,7 @@ package net
 //@   ensures[C17] at_unlock(len(e.handlers)) == at_lock(len(e.handlers))
 //@   ensures[C17] forall i int {at_unlock(e.handlers[i])} :: 0 <= i && i < at_lock(len(e.handlers)) ==> at_unlock(e.handlers[i]) == at_lock(e.handlers[i]) || (at_unlock(e.handlers[i]) == nil && at_lock(e.handlers[i]) != nil && at_lock(e.handlers[i]).hclosed == 1 && at_lock(e.handlers[i]).consumer.chclosed)
 //@   loop 1:
-//@     invariant e.handlersMutex.lockw && e.handlers == at_lock(e.handlers) && e.stream != nil && msg != nil
+//@     invariant e.handlersMutex.lockw && e.handlers == at_lock(e.handlers) && e.stream != nil && msg != nil && e.ndisp == old(e.ndisp) + 1
 //@     invariant forall k int {e.handlers[k]} :: rangeindex < k && k < len(e.handlers) ==> e.handlers[k] == at_lock(e.handlers[k])
 //@     invariant forall k int {at_lock(e.handlers[k])} :: 0 <= k && k <= rangeindex && k < len(e.handlers) && at_lock(e.handlers[k]) != nil ==> at_lock(e.handlers[k]).hslot == k && (at_lock(e.handlers[k]).hkeep ==> e.handlers[k] == at_lock(e.handlers[k])) && (!at_lock(e.handlers[k]).hkeep ==> e.handlers[k] == nil)
 //@     invariant -1 <= e.dvisited && e.dvisited <= rangeindex && forall k int {at_lock(e.handlers[k])} :: e.dvisited < k && k <= rangeindex && k < len(e.handlers) ==> at_lock(e.handlers[k]) == nil
@@ -298,7 +302,6 @@ package net
 //@   call Read#1: ghost e.nread := e.nread + 1
 //@   call dispatch#1: assert[C10] e.nread == e.ndisp + 1 && arg0 == msg
 //@   call dispatch#1: assert[C10] iterfresh(msg)
-//@   call dispatch#1: ghost e.ndisp := e.ndisp + 1
 //@   call closeWith#1: assert[C11] err != nil && arg0 == err
 //@   call closeWith#1: ghost e.nclose := e.nclose + 1
 //@   loop 1:
